@@ -6,7 +6,7 @@ T=$(mktemp -d /tmp/vxtry_XXXX)
 git -C /repo archive HEAD src codegen | tar -x -C "$T" || exit 3
 ( cd "$T" && git init -q . && git apply "$PATCH" ) || { echo "PATCH-DOES-NOT-APPLY"; rm -rf "$T"; exit 3; }
 for P in "$@"; do
-  VERIF_REPO=$T VERIF_BUILD=$T/b_$P VERIF_EVIDENCE_DIR=$T/ev VERIF_REPLAYS=$T/rp /verif/check "$P" > "$T/$P.out" 2>&1
+  VERIF_REPO=$T VERIF_BUILD=$T/b_$P VERIF_EVIDENCE_DIR=$T/ev VERIF_REPLAYS=$T/rp ${VERIF_CHECK:-/verif/check} "$P" > "$T/$P.out" 2>&1
   echo "$P exit=$?"
   grep -E "^(VIOLATION|UNDECIDED|KNOWN|C[0-9]+:)" "$T/$P.out" | cut -c1-330
 done
